@@ -167,6 +167,13 @@ func (r *Result) AddRef(s *RefResult) {
 	if s.Harness != "" {
 		r.Inconclusive = s.Harness
 	}
+	if s.Outcome == kernel.StepBudget {
+		// the simulator's own step cap: every error the parties report after
+		// it is the shutdown's doing. None of the checks built on RunWithRef is
+		// about termination (C18 is, and runs whole sessions with a step cap
+		// scaled to the volume).
+		r.Inconclusive = "step budget of the simulator exhausted: " + s.Pending
+	}
 	r.Sessions++
 	r.Steps += s.Stats.Steps
 	r.Bytes += s.Stats.Bytes
